@@ -684,6 +684,10 @@ where
             }
         }
 
+        // the channel is closed by unsubscribe() or by store shutdown, whichever comes first:
+        // tell the user's subscriber, as a direct subscriber would be told
+        subscriber.on_unsubscribe();
+
         #[cfg(dev)]
         eprintln!("store: {} channel thread done", _name);
     }
